@@ -265,6 +265,22 @@ Definition chk (v : value) (leaves : list (list string * value)) : bool :=
                 if not same:
                     ctx.violation(f"samples-name-with-{tag}", f"Samples with parameters {pn} was saved without complaint but does not reload: "
                                   f"{t0!r:.160}", case)
+        # parameter names handed over as a NumPy array or a tuple (what slicing a table of names gives) instead of a list
+        for pn_given, tag in ((np.array(["zeta", "alpha"]), "array"), (("zeta", "alpha"), "tuple")):
+            case = {"cls": "Samples", "parameters": f"{tag} of names"}
+            ctx.count(json.dumps(case), True, kind="samples/names-" + tag)
+            path = os.path.join(root, "pn.h5")
+            try:
+                s0 = _S(np.arange(8.0).reshape(4, 2) + 0.5, parameters=pn_given, log_likelihood=[0.5, 1.0, 2.0, -1.0], log_prior=[0.0] * 4, log_q=[1.0] * 4)
+                with h5py.File(path, "w") as f:
+                    s0.save(f)
+                with h5py.File(path, "r") as f:
+                    t0 = _S.load(f)
+                pieces = _S.concatenate([s0[:2], s0[2:]])
+                if [str(p) for p in t0.parameters] != ["zeta", "alpha"] or not np.array_equal(np.asarray(t0.x), np.asarray(s0.x)) or len(pieces.x) != 4:
+                    ctx.violation(f"samples-names-as-{tag}", f"Samples with parameters given as a {tag} reloads with parameters {t0.parameters!r}", case)
+            except Exception as e:
+                ctx.violation(f"samples-names-as-{tag}:{type(e).__name__}", f"Samples with parameters given as a {tag}: save / load / concatenate raised {e!r:.160}", case)
         # ---------------- (c) histories
         from aspire.history import FlowHistory, SMCHistory
         for nsname in NS:
